@@ -46,6 +46,10 @@ def space(tier, seed):
     for arg in (('star', None), ('int', 1), F('a', 1)):
         for grp in (None, [F('a', 1)]):
             qs.append(('base', {'items': [A('COUNT', spell[len(qs) % 3], arg)], 'where': None, 'group': grp}))
+    qs.append(('base', {'items': [F('a', 1), A('COUNT', 'U', ('star', None)), A('MAX', 'U', F('a', 3)), A('COUNT', 'l', ('star', None))], 'where': None, 'group': [F('a', 1)]}))
+    qs.append(('base', {'items': [A('COUNT', 'C', ('star', None)), A('COUNT', 'U', ('star', None)), A('COUNT', 'U', F('a', 1))], 'where': wheres[1], 'group': None}))
+    for kind in ('MIN', 'MAX', 'SUM', 'MEDIAN'):
+        qs.append(('big', {'items': [A(kind, 'U', F('a', 3))], 'where': None, 'group': None}))
     qs.append(('base', {'items': [('lit', 'c'), A('SUM', 'U', F('a', 3))], 'where': None, 'group': None}))
     qs.append(('base', {'items': [F('a', 1), A('SUM', 'U', F('a', 3))], 'where': None, 'group': None}))          # non-constant unless one key
     qs.append(('base', {'items': [F('a', 3), A('COUNT', 'U', ('star', None))], 'where': None, 'group': [F('a', 1)]}))   # non-constant
@@ -76,6 +80,10 @@ def space(tier, seed):
 def tables_for(sp_, slice_, maxrows):
     g, h = sp_['g'], sp_['h']
     res = []
+    if slice_ == 'big':
+        # integer strings above 2**53: conversion must be exact (not through float)
+        rows = [[g, 'u', v] for v in ('9007199254740993', '9007199254740992', '-9007199254740995', '7')]
+        return list(qcheck.tables_upto(rows, min(maxrows, 3)))
     if slice_ == 'two':
         rows = [[a, b, v] for a in (g, h) for b in ('u', 'v') for v in ('0', '10')]
         return list(qcheck.tables_upto(rows, min(maxrows, 3)))
@@ -114,7 +122,7 @@ def run_shard(sh):
         text = refql.render(q)
         for A in cache[slice_]:
             exp, got, why = qcheck.run_case(res, q, A, None, diagnose=diagnose, text=text)
-            if q['items'][0][0] != 'agg' or q['items'][0][2] == 'U':
+            if slice_ != 'big' and (q['items'][0][0] != 'agg' or q['items'][0][2] == 'U'):
                 jscases.append((q, A, None, None, None))
             res.states += 1
             res.transitions += 1 if A else 0
